@@ -2,7 +2,7 @@
 
 Terms are hashable tuples:
   ('any',) ('none',) ('cls', C) ('union', frozenset{t}) ('list', t) ('set', t) ('dict', k, v)
-  ('defaultdict', k, v) ('tuple', (t1..tn)) ('tuplevar', t) ('type', t) ('callable',)
+  ('defaultdict', k, v) ('tuple', (t1..tn)) ('tuplevar', t) ('type', t) ('callable',) | ('callable', (p1..pn) | '...', r)
   ('iterator', t) ('generator', y, s, r) ('td', frozenset{(k,t)} required, frozenset{(k,t)} optional)
   ('unknown', repr)
 Only typing.get_origin/get_args and attribute reads are used; nothing from monkeytype is called.
@@ -84,6 +84,11 @@ def to_rt(t, td_specs=None):
     if origin is type:
         return ("type", to_rt(args[0], td_specs) if args else ANY)
     if origin is collections.abc.Callable:
+        raw = getattr(t, "__args__", None) or ()  # the flat form: get_args() normalises malformed parameter lists away
+        if raw:  # a spelled-out signature (only source annotations have one; inference gives the bare Callable)
+            if len(raw) == 2 and raw[0] is Ellipsis:
+                return ("callable", "...", to_rt(raw[1], td_specs))
+            return ("callable", tuple(to_rt(a, td_specs) for a in raw[:-1]), to_rt(raw[-1], td_specs))
         return CALLABLE
     if origin is collections.abc.Iterator:
         return ("iterator", to_rt(args[0], td_specs) if args else ANY)
@@ -138,6 +143,8 @@ def children(rt):
         return list(rt[1])
     if k == "generator":
         return [rt[1], rt[2], rt[3]]
+    if k == "callable" and len(rt) == 3:
+        return (list(rt[1]) if isinstance(rt[1], tuple) else []) + [rt[2]]
     if k == "td":
         return [t for _, t in rt[1]] + [t for _, t in rt[2]]
     return []
@@ -169,6 +176,8 @@ def show(rt):
     if k == "generator":
         return f"Generator[{show(rt[1])}, {show(rt[2])}, {show(rt[3])}]"
     if k == "callable":
+        if len(rt) == 3:
+            return "Callable[" + ("..." if rt[1] == "..." else "[" + ", ".join(show(x) for x in rt[1]) + "]") + ", " + show(rt[2]) + "]"
         return "Callable"
     if k == "td":
         req = ", ".join(f"{n}: {show(t)}" for n, t in sorted(rt[1], key=lambda p: p[0]))
